@@ -36,13 +36,27 @@ def run(ctx):
     judged = tvcheck.TVRun()
     judged.cases = {pid: v for pid, v in res.cases.items() if meaning.get(pid, False)}
     judged.reports = [r for r in res.reports if r["id"] in judged.cases]
+    # programs of a listed construct finding (keyed by the generator's construct tag): a mismatch is that finding
+    cons = {kf["construct"]: kf for kf in ctx.findings_for("construct")}
+    keep = []
+    for r in judged.reports:
+        p = judged.cases[r["id"]][0]
+        if len(p["tags"]) > 1 and p["tags"][1] in cons and any(v.get("r") == "mismatch" for v in r["v"]):
+            ctx.note_known(cons[p["tags"][1]], p["text"][:140])
+        else:
+            keep.append(r)
+    judged.reports = keep
     cnt = tvcheck.classify_tv(ctx, judged)
     # declared but never sequenced effects / pures
     for x in res.sreports:
         if x.get("emitc", "").startswith("own: initialised but never consumed") and meaning.get(x["id"], False):
             p, case = res.cases[x["id"]]
-            # (no listed finding drops an effect: the shapes of known_findings.json misplace effects, they never lose them)
-            if True:
+            # (no listed SHAPE drops an effect: the shapes of known_findings.json misplace effects, they never lose them; a listed
+            # CONSTRUCT -- keyed by the generator's construct tag -- may)
+            fk = [kf for kf in ctx.findings_for("construct") if len(p["tags"]) > 1 and kf["construct"] == p["tags"][1]]
+            if fk:
+                ctx.note_known(fk[0], p["text"][:140])
+            else:
                 ctx.violation("an effect is declared but never sequenced (%s): %s" % (x["emitc"], p["text"][:200]),
                               {"kind": "unsequenced", "program": p, "report": x})
     for u in res.unreadable:
